@@ -11,6 +11,8 @@ import (
 	"go/types"
 	"regexp"
 	"strings"
+
+	. "vh/kit"
 )
 
 var bindRe = regexp.MustCompile(`\| ([A-Za-z_0-9']+) :: ([A-Za-z_0-9']+) =>|let '\(([^)]*)\) :=|\(([A-Za-z_0-9']+) : `)
@@ -168,6 +170,8 @@ func (c *fn) stmt(s ast.Stmt, k kont) string {
 		return c.ifStmt(s, k)
 	case *ast.SwitchStmt:
 		return c.switchStmt(s, k)
+	case *ast.TypeSwitchStmt:
+		return c.typeSwitchStmt(s, k)
 	case *ast.ForStmt:
 		return c.forStmt(s, k)
 	case *ast.RangeStmt:
@@ -213,6 +217,13 @@ func (c *fn) stmt(s ast.Stmt, k kont) string {
 }
 
 func (c *fn) returnStmt(s *ast.ReturnStmt) string {
+	if n := len(c.cbRet); n > 0 {
+		// a return of the callback literal whose body is being folded over the pages
+		if len(s.Results) != 1 {
+			c.fail(s, "return of a callback with %d values", len(s.Results))
+		}
+		return c.cbRet[n-1](c.exprAs(s.Results[0], types.Universe.Lookup("error").Type()))
+	}
 	res := c.sig.Results()
 	if len(s.Results) == 0 {
 		return c.returnTerm(s, nil)
@@ -275,7 +286,7 @@ func (c *fn) nilTest(e ast.Expr) (types.Object, bool, bool) {
 		return nil, false, false
 	}
 	o := c.objOf(id)
-	if o == nil || !c.isLocal(o) || c.asValue[o] || c.g.kind(o.Type(), c.sub) != kPtr {
+	if o == nil || !c.isLocal(o) || c.asValue[o] || (c.g.kind(o.Type(), c.sub) != kPtr && c.g.kind(o.Type(), c.sub) != kNilable) {
 		return nil, false, false
 	}
 	return o, be.Op == token.EQL, true
@@ -308,7 +319,7 @@ func (c *fn) ifStmt(s *ast.IfStmt, k kont) string {
 			}
 			if o, isEq, ok := c.nilTest(s.Cond); ok {
 				v := c.fresh(c.nameOf(o) + "_v")
-				c.regLocal(v, c.g.typ(resolve(o.Type(), c.sub).(*types.Pointer).Elem(), c.sub))
+				c.regLocal(v, c.g.ptrElemType(o.Type(), c.sub))
 				nilBranch, someBranch := ast.Stmt(s.Body), elseSt
 				if !isEq {
 					nilBranch, someBranch = elseSt, ast.Stmt(s.Body)
@@ -328,14 +339,34 @@ func (c *fn) ifStmt(s *ast.IfStmt, k kont) string {
 				})
 				return "match ptr_val " + c.nameOf(o) + " with | Some " + v + " => " + someT + " | None => " + noneT + " end"
 			}
+			// `if err != nil {..}` / `if err == nil {..} else {..}`: the error variable is non-nil in that branch
+			var errObj types.Object
+			errInThen := false
+			if be, ok := unparen(s.Cond).(*ast.BinaryExpr); ok && (be.Op == token.NEQ || be.Op == token.EQL) {
+				x, y := unparen(be.X), unparen(be.Y)
+				if c.isNilExpr(x) {
+					x, y = y, x
+				}
+				if id, ok := x.(*ast.Ident); ok && c.isNilExpr(y) && c.kindOf(x) == kError {
+					errObj, errInThen = c.objOf(id), be.Op == token.NEQ
+				}
+			}
+			withErr := func(inThen bool, f func() string) string {
+				if errObj == nil || inThen != errInThen || c.nonNilErr[errObj] {
+					return f()
+				}
+				c.nonNilErr[errObj] = true
+				defer delete(c.nonNilErr, errObj)
+				return f()
+			}
 			cond := c.expr(s.Cond)
 			if s.Else == nil && c.onlyLogs(s.Body) {
 				// a branch that only logs: the condition is evaluated (it may panic), nothing else happens
 				return c.bind(cond, "c", func(string) string { return branch(nil) })
 			}
 			return c.bind(cond, "c", func(cv string) string {
-				thenT := branch(s.Body)
-				elseT := branch(elseSt)
+				thenT := withErr(true, func() string { return branch(s.Body) })
+				elseT := withErr(false, func() string { return branch(elseSt) })
 				if thenT == elseT {
 					return thenT // e.g. a branch that only logs
 				}
@@ -514,6 +545,9 @@ func (c *fn) loop(n ast.Node, list cx, elemT string, withIdx bool, bindElem func
 				seen[tok] = true
 				ty, ok := c.localTypes[tok]
 				if !ok {
+					if _, isVar := c.nameObj[tok]; isVar {
+						c.fail(n, "internal: the type of local %s is not known while lifting a loop", tok)
+					}
 					continue
 				}
 				external := false
@@ -603,10 +637,12 @@ func coqIdents(s string) []string {
 	return out
 }
 
-// checkClosed: every temporary (a name with a prime) used in a lifted loop is
-// a parameter or is bound inside it.
+// checkClosed is the scope check of an emitted definition: every identifier
+// of the text is a parameter, is bound inside the text, is a global this file
+// defines, or belongs to Coq / GoLib. A function whose text fails the check
+// is unsupported (never an ill-scoped Cxx_Gen.v).
 func (c *fn) checkClosed(n ast.Node, text string, params []string) {
-	ok := map[string]bool{}
+	ok := map[string]bool{"_": true}
 	for _, p := range params {
 		ok[p] = true
 	}
@@ -625,9 +661,13 @@ func (c *fn) checkClosed(n ast.Node, text string, params []string) {
 		}
 	}
 	for _, t := range toks {
-		if strings.Contains(t, "'") && !ok[t] && !strings.Contains(t, ".") {
-			c.fail(n, "internal: the temporary %s would escape into a lifted loop", t)
+		if ok[t] || strings.Contains(t, ".") || reservedCoq[t] {
+			continue
 		}
+		if _, global := c.g.names[t]; global {
+			continue
+		}
+		c.fail(n, "internal: identifier %s would be unbound in the generated definition", t)
 	}
 }
 
@@ -660,7 +700,7 @@ func (c *fn) rangeStmt(s *ast.RangeStmt, k kont) string {
 	}
 	switch kind {
 	case kSlice:
-		elemT := c.g.typ(xt.Underlying().(*types.Slice).Elem(), c.sub)
+		elemT := c.g.typ(elemOf(xt), c.sub)
 		return c.loop(s, c.expr(s.X), elemT, keyObj != nil, func(x, idx string, body func() string) string {
 			// names are bound before the body is translated
 			a := func() string { return body() }
@@ -859,6 +899,17 @@ func (c *fn) declStmt(s *ast.DeclStmt, k kont) string {
 // exprForVar translates the value assigned to variable o (a pointer variable
 // held by value receives the pointee).
 func (c *fn) exprForVar(o types.Object, e ast.Expr) cx {
+	if lit, ok := unparen(e).(*ast.FuncLit); ok {
+		if len(c.assignPositions()[o]) > 0 {
+			c.fail(e, "the variable %s that holds a function literal is assigned again", o.Name())
+		}
+		r, isOpt := c.funcLit(lit)
+		c.closureVar[o] = true
+		c.closureOpt[o] = isOpt
+		delete(c.localTypes, c.nameOf(o))
+		c.regLocal(c.nameOf(o), c.varType(o))
+		return r
+	}
 	if c.asValue[o] {
 		return c.pointee(e)
 	}
@@ -896,33 +947,118 @@ func (c *fn) exprStmt(s *ast.ExprStmt, k kont) string {
 	}
 	fi, _, recv := c.calleeInfo(call)
 	if fi == nil {
+		if c.kindOf(call.Fun) == kFunc || c.isIfaceFnCall(call) {
+			// a function value: it has no effect on the variables of this function, only a panic matters
+			return c.bind(c.call(call), "u", func(string) string { return k() })
+		}
 		c.fail(s, "call statement of a function that is neither a target nor droppable")
 	}
-	res := c.call(call)
+	if fi.cbPage != "" {
+		return c.callbackCall(s, call, fi, recv, nil, k)
+	}
 	if fi.inoutCount() == 0 {
+		if fi.oracle && !fi.drop {
+			// an oracle called for its effect: nothing of it would remain
+			args := call.Args
+			if recv != nil {
+				args = append([]ast.Expr{recv}, args...)
+			}
+			for i, a := range args {
+				if i < len(fi.params) && !fi.params[i].dropped {
+					switch c.kindOf(a) {
+					case kPtr, kMap, kOpaque:
+						c.fail(s, "the oracle %s is called as a statement with a reference argument: its effect would be lost (declare OutParams, or Drop if the effect is irrelevant)", fi.label)
+					}
+				}
+			}
+		}
 		// no effect: only a possible panic matters
-		return c.bind(res, "u", func(string) string { return k() })
+		return c.bind(c.call(call), "u", func(string) string { return k() })
 	}
-	if fi.nres != 0 {
-		c.fail(s, "call statement discarding results of a function that mutates its map arguments")
-	}
+	return c.inoutCall(s, call, fi, recv, nil, k)
+}
+
+// inoutCall translates a call of a function that writes through some of its
+// arguments: the callee returns the new values first, then its results; the
+// variables behind the arguments are rebound, the results go to lhs (nil =
+// discarded).
+func (c *fn) inoutCall(n ast.Node, call *ast.CallExpr, fi *fnInfo, recv ast.Expr, lhs []ast.Expr, k kont) string {
 	args := call.Args
 	if recv != nil {
 		args = append([]ast.Expr{recv}, args...)
 	}
 	var targets []ast.Expr
 	for i, p := range fi.params {
-		if p.inout {
-			targets = append(targets, args[i])
+		if p.inout && i < len(args) {
+			tgt := c.inoutTarget(args[i])
+			if tgt == nil {
+				c.fail(args[i], "%s writes through this argument, which is not a variable this function owns", fi.label)
+			}
+			targets = append(targets, tgt)
 		}
 	}
-	return c.bind(res, "u", func(v string) string {
-		if len(targets) == 1 {
-			return c.store(targets[0], func(cx) cx { return cx{s: v} }, k)
+	if lhs != nil && len(lhs) != fi.nres {
+		c.fail(n, "%d variables for the %d results of %s", len(lhs), fi.nres, fi.label)
+	}
+	all := append([]ast.Expr{}, targets...)
+	for i := 0; i < fi.nres; i++ {
+		if lhs != nil {
+			all = append(all, lhs[i])
+		} else {
+			all = append(all, nil)
 		}
-		c.fail(s, "a call that mutates several map arguments is not supported")
-		return ""
-	})
+	}
+	return c.bind(c.call(call), "t", func(tv string) string { return c.destructure(tv, all, len(targets), k) })
+}
+
+// destructure binds the components of a tuple-valued term to lvalues (nil = discarded).
+// The first nOwn entries are in/out targets (they receive pointees).
+func (c *fn) destructure(tv string, lhs []ast.Expr, nOwn int, k kont) string {
+	if len(lhs) == 1 {
+		if lhs[0] == nil {
+			return k()
+		}
+		return c.store(lhs[0], func(cx) cx { return cx{s: tv} }, k)
+	}
+	var pats []string
+	type pend struct {
+		lhs ast.Expr
+		tmp string
+	}
+	var later []pend
+	for li, l := range lhs {
+		if l == nil {
+			pats = append(pats, "_")
+			continue
+		}
+		id, isId := unparen(l).(*ast.Ident)
+		switch {
+		case isId && id.Name == "_":
+			pats = append(pats, "_")
+		case isId && c.g.kind(c.objOf(id).Type(), c.sub) == kDropped:
+			pats = append(pats, "_")
+		case isId && c.isLocal(c.objOf(id)):
+			o := c.objOf(id)
+			if c.asValue[o] && li >= nOwn {
+				c.fail(l, "multi-valued assignment to the pointer variable %s, which is held by value", id.Name)
+			}
+			delete(c.views, o)
+			delete(c.nonNilErr, o)
+			pats = append(pats, c.nameOf(o))
+		default:
+			t := c.fresh("t")
+			pats = append(pats, t)
+			later = append(later, pend{l, t})
+		}
+	}
+	var rec func(i int) string
+	rec = func(i int) string {
+		if i == len(later) {
+			return k()
+		}
+		return c.store(later[i].lhs, func(cx) cx { return cx{s: later[i].tmp} }, func() string { return rec(i + 1) })
+	}
+	return "let '(" + strings.Join(pats, ", ") + ") := " + tv + " in " + rec(0)
 }
 
 // ---------- assignments ----------
@@ -957,6 +1093,21 @@ func (c *fn) assignStmt(s *ast.AssignStmt, k kont) string {
 				return c.dropCall(call, k)
 			}
 			return k()
+		}
+	}
+	if len(s.Rhs) == 1 {
+		if call, ok := unparen(s.Rhs[0]).(*ast.CallExpr); ok {
+			if tv, isT := c.info.Types[call.Fun]; !(isT && tv.IsType()) {
+				if fi, _, recv := c.calleeInfo(call); fi != nil && fi.cbPage != "" {
+					if len(s.Lhs) != 1 {
+						c.fail(s, "assignment shape of a callback call")
+					}
+					return c.callbackCall(s, call, fi, recv, s.Lhs[0], k)
+				}
+				if fi, _, recv := c.calleeInfo(call); fi != nil && fi.inoutCount() > 0 {
+					return c.inoutCall(s, call, fi, recv, s.Lhs, k)
+				}
+			}
 		}
 	}
 	if len(s.Lhs) == len(s.Rhs) {
@@ -1004,42 +1155,31 @@ func (c *fn) assignStmt(s *ast.AssignStmt, k kont) string {
 		tuple = c.lift([]cx{c.expr(r.X), c.exprAs(r.Index, mt.Key())}, func(v []string) string {
 			return "(map_get_ok " + eqb + " " + zero + " " + v[1] + " " + v[0] + ")"
 		})
+	case *ast.TypeAssertExpr:
+		if len(s.Lhs) != 2 {
+			c.fail(s, "comma-ok form with %d variables", len(s.Lhs))
+		}
+		if r.Type != nil && c.g.isOpaqueIface(c.typeOf(r.X), c.sub) {
+			tt := resolve(c.info.TypeOf(r.Type), c.sub)
+			if !c.g.isOpaqueIface(tt, c.sub) || c.g.kind(tt, c.sub) != kNilable {
+				c.fail(r, "type assertion of an interface value to %s: the target must be an interface type declared Opaque and Nilable", types.TypeString(tt, nil))
+			}
+			as := c.g.ifaceAs(c.typeOf(r.X), tt, c.sub)
+			nilable := c.kindOf(r.X) == kNilable
+			tuple = c.lift([]cx{c.expr(r.X)}, func(v []string) string {
+				if nilable {
+					return "(iface_assert " + as + " " + v[0] + ")"
+				}
+				return "(iface_assert " + as + " (PNew " + v[0] + "))"
+			})
+			break
+		}
+		fnName, ty := c.assertion(r)
+		tuple = c.lift([]cx{c.expr(r.X)}, func(v []string) string { return "(" + fnName + " " + CStr(ty) + " " + v[0] + ")" })
 	default:
 		c.fail(s, "multi-valued right-hand side %T is not supported", rhs)
 	}
-	return c.bind(tuple, "t", func(tv string) string {
-		var pats []string
-		type pend struct {
-			lhs ast.Expr
-			tmp string
-		}
-		var later []pend
-		for _, l := range s.Lhs {
-			id, isId := unparen(l).(*ast.Ident)
-			switch {
-			case isId && id.Name == "_":
-				pats = append(pats, "_")
-			case isId && c.g.kind(c.objOf(id).Type(), c.sub) == kDropped:
-				pats = append(pats, "_")
-			case isId && !c.asValue[c.objOf(id)]:
-				o := c.objOf(id)
-				delete(c.views, o)
-				pats = append(pats, c.nameOf(o))
-			default:
-				t := c.fresh("t")
-				pats = append(pats, t)
-				later = append(later, pend{l, t})
-			}
-		}
-		var rec func(i int) string
-		rec = func(i int) string {
-			if i == len(later) {
-				return k()
-			}
-			return c.store(later[i].lhs, func(cx) cx { return cx{s: later[i].tmp} }, func() string { return rec(i + 1) })
-		}
-		return "let '(" + strings.Join(pats, ", ") + ") := " + tv + " in " + rec(0)
-	})
+	return c.bind(tuple, "t", func(tv string) string { return c.destructure(tv, s.Lhs, 0, k) })
 }
 
 func (c *fn) rhsFor(lhs, rhs ast.Expr) cx {
@@ -1086,6 +1226,7 @@ func (c *fn) store(lhs ast.Expr, f func(old cx) cx, k kont) string {
 		nv := f(old)
 		return c.bind(nv, "r", func(v string) string {
 			delete(c.views, o)
+			delete(c.nonNilErr, o)
 			return c.letVar(o, v) + k()
 		})
 	case *ast.SelectorExpr:
@@ -1102,6 +1243,24 @@ func (c *fn) store(lhs ast.Expr, f func(old cx) cx, k kont) string {
 		container := l.X
 		if p, ok := xt.(*types.Pointer); ok {
 			id, isId := unparen(l.X).(*ast.Ident)
+			if isId && c.mutable[c.objOf(id)] && !c.asValue[c.objOf(id)] && c.isLocal(c.objOf(id)) {
+				// a pointer this function owns but that may be nil (a fresh result of an oracle)
+				o := c.objOf(id)
+				n, ok := resolve(p.Elem(), c.sub).(*types.Named)
+				if !ok || c.g.kind(n, c.sub) != kStruct {
+					c.fail(l, "write through a pointer to a non-struct")
+				}
+				fld := c.g.record(n).field(c.g, l.Sel.Name)
+				return c.bind(c.pointee(l.X), "pv", func(v string) string {
+					nv := f(cx{s: "(" + fld.name + " " + v + ")"})
+					return c.bind(nv, "r", func(nvs string) string {
+						nview := c.fresh(c.nameOf(o) + "_v")
+						c.regLocal(nview, c.g.typ(n, c.sub))
+						c.views[o] = nview
+						return "let " + nview + " := (" + fld.setter + " " + nvs + " " + v + ") in let " + c.nameOf(o) + " := (PNew " + nview + ") in " + k()
+					})
+				})
+			}
 			if !isId || !c.asValue[c.objOf(id)] || !c.mutable[c.objOf(id)] {
 				c.fail(l, "write through a pointer that was not created in this function")
 			}
@@ -1123,6 +1282,12 @@ func (c *fn) store(lhs ast.Expr, f func(old cx) cx, k kont) string {
 			nv := f(oldF)
 			return c.lift([]cx{nv, oldC}, func(v []string) string { return "(" + fld.setter + " " + v[0] + " " + v[1] + ")" })
 		}, k)
+	case *ast.StarExpr:
+		id, ok := unparen(l.X).(*ast.Ident)
+		if !ok || !c.asValue[c.objOf(id)] || !c.mutable[c.objOf(id)] {
+			c.fail(l, "store through a pointer that is not owned by this function")
+		}
+		return c.store(id, f, k)
 	case *ast.IndexExpr:
 		mt, ok := resolve(c.info.TypeOf(l.X), c.sub).Underlying().(*types.Map)
 		if !ok {
@@ -1181,8 +1346,257 @@ func (c *fn) checkOwnedMap(m ast.Expr) {
 			if o != nil && c.mutable[o] && c.freshFields[o] != nil && c.freshFields[o][x.Sel.Name] {
 				return
 			}
+			if o != nil && c.isInout[o] {
+				return // the holder is returned to the caller with the new map
+			}
 		}
 		c.fail(m, "write to the map in field %s whose holder or map was not created in this function", x.Sel.Name)
 	}
 	c.fail(m, "write to a map reached through %T", m)
+}
+
+func (c *fn) isIfaceFnCall(call *ast.CallExpr) bool {
+	if se, ok := unparen(call.Fun).(*ast.SelectorExpr); ok {
+		if sel, ok := c.info.Selections[se]; ok && sel.Kind() == types.MethodVal {
+			return c.g.kind(sel.Recv(), c.sub) == kIfaceFn
+		}
+	}
+	return false
+}
+
+// typeSwitchStmt: `switch x.(type)` on an error value (cases: error struct
+// types, pointer or value, and nil) or on a value of type any (cases of string
+// / integer / boolean kinds and nil). The bound variable of `switch v :=
+// x.(type)` may not be used.
+func (c *fn) typeSwitchStmt(s *ast.TypeSwitchStmt, k kont) string {
+	var ta *ast.TypeAssertExpr
+	switch a := s.Assign.(type) {
+	case *ast.ExprStmt:
+		ta, _ = unparen(a.X).(*ast.TypeAssertExpr)
+	case *ast.AssignStmt:
+		if len(a.Rhs) == 1 {
+			ta, _ = unparen(a.Rhs[0]).(*ast.TypeAssertExpr)
+		}
+		// the variable bound in each clause is an implicit object of the clause
+		for _, st := range s.Body.List {
+			if o := c.info.Implicits[st]; o != nil {
+				used := false
+				ast.Inspect(st, func(n ast.Node) bool {
+					if id, ok := n.(*ast.Ident); ok && c.info.Uses[id] == o {
+						used = true
+					}
+					return true
+				})
+				if used {
+					c.fail(st, "the variable bound by the type switch is used (its concrete value is not modelled)")
+				}
+			}
+		}
+	}
+	if ta == nil {
+		c.fail(s, "type switch of an unsupported shape")
+	}
+	xk := c.kindOf(ta.X)
+	if xk != kError && xk != kAny {
+		c.fail(s, "type switch on a value of type %s (only error and any are supported)", types.TypeString(c.typeOf(ta.X), nil))
+	}
+	assigned := c.assignedIn(s)
+	return c.withJoin(s, assigned, k, func(k2 kont) string {
+		core := func() string {
+			var clauses []*ast.CaseClause
+			var def *ast.CaseClause
+			for _, st := range s.Body.List {
+				cc := st.(*ast.CaseClause)
+				if cc.List == nil {
+					def = cc
+				} else {
+					clauses = append(clauses, cc)
+				}
+			}
+			body := func(cc *ast.CaseClause) string {
+				return c.scoped(func() string {
+					c.breakK = append(c.breakK, k2)
+					if cc == nil {
+						return k2()
+					}
+					return c.block(cc.Body, k2)
+				})
+			}
+			return c.bind(c.expr(ta.X), "x", func(xv string) string {
+				wrap := func(r string) string { return r }
+				if !isSimpleTerm(xv) {
+					t := c.fresh("x")
+					old := xv
+					xv = t
+					wrap = func(r string) string { return "let " + t + " := " + old + " in " + r }
+				}
+				var rec func(i int) string
+				rec = func(i int) string {
+					if i == len(clauses) {
+						return body(def)
+					}
+					var conds []string
+					for _, te := range clauses[i].List {
+						if c.isNilExpr(te) {
+							if xk == kError {
+								conds = append(conds, "(is_none "+xv+")")
+							} else {
+								conds = append(conds, "(any_is_nil "+xv+")")
+							}
+							continue
+						}
+						t := resolve(c.info.TypeOf(te), c.sub)
+						if xk == kError {
+							star := ""
+							et := t
+							if p, ok := t.(*types.Pointer); ok {
+								star, et = "*", resolve(p.Elem(), c.sub)
+							}
+							n, ok := et.(*types.Named)
+							if !ok || !implementsError(n) {
+								c.fail(te, "type switch case %s is not an error struct type", types.TypeString(t, nil))
+							}
+							conds = append(conds, "(err_dyn_in ["+CStr(star+n.Obj().Pkg().Name()+"."+n.Obj().Name())+"] "+xv+")")
+						} else {
+							var f string
+							switch c.g.kind(t, c.sub) {
+							case kString:
+								f = "any_str"
+							case kInt:
+								f = "any_int"
+							case kBool:
+								f = "any_bool"
+							default:
+								c.fail(te, "type switch case %s on a value of type any is not supported", types.TypeString(t, nil))
+							}
+							conds = append(conds, "(snd ("+f+" "+CStr(dynTypeName(t))+" "+xv+"))")
+						}
+					}
+					return "if " + strings.Join(conds, " || ") + " then " + body(clauses[i]) + " else " + rec(i+1)
+				}
+				return wrap(rec(0))
+			})
+		}
+		if s.Init != nil {
+			return c.stmt(s.Init, core)
+		}
+		return core()
+	})
+}
+
+// callbackCall translates `err = oracle(args, func(page) error { BODY })` for an
+// oracle declared with Target.Callback: the oracle yields the pages and its
+// final error; BODY is folded over the pages, threading the captured variables
+// it assigns; the first non-nil error BODY returns ends the fold and is the result.
+func (c *fn) callbackCall(n ast.Node, call *ast.CallExpr, fi *fnInfo, recv ast.Expr, lhs ast.Expr, k kont) string {
+	args := call.Args
+	if recv != nil {
+		args = append([]ast.Expr{recv}, args...)
+	}
+	var lit *ast.FuncLit
+	for i, p := range fi.params {
+		if p.callback && i < len(args) {
+			lit, _ = unparen(args[i]).(*ast.FuncLit)
+		}
+	}
+	if lit == nil {
+		c.fail(n, "the callback argument of %s must be a function literal", fi.label)
+	}
+	lsig, ok := c.typeOf(lit).Underlying().(*types.Signature)
+	if !ok {
+		c.fail(lit, "callback literal without a signature")
+	}
+	state := c.assignedIn(lit)
+	// the variable receiving the error
+	var errObj types.Object
+	if lhs != nil {
+		if id, ok := unparen(lhs).(*ast.Ident); ok && id.Name != "_" {
+			errObj = c.objOf(id)
+			if errObj == nil || !c.isLocal(errObj) || c.g.kind(errObj.Type(), c.sub) != kError {
+				c.fail(lhs, "the result of a callback call must be assigned to a local error variable")
+			}
+		} else if !ok {
+			c.fail(lhs, "the result of a callback call must be assigned to a local error variable")
+		}
+	}
+	for _, o := range state {
+		if o == errObj {
+			c.fail(lit, "the callback assigns the variable that receives the result of the call")
+		}
+	}
+	// what follows the call: a function of the state and of the resulting error
+	kname := c.fresh("k")
+	resName := c.fresh("cberr")
+	var kparams, ktypes, sargs []string
+	for _, o := range state {
+		kparams = append(kparams, fmt.Sprintf("(%s : %s)", c.nameOf(o), c.varType(o)))
+		ktypes = append(ktypes, c.varType(o))
+		sargs = append(sargs, c.nameOf(o))
+	}
+	errParam := resName
+	if errObj != nil {
+		errParam = c.nameOf(errObj)
+	}
+	kparams = append(kparams, fmt.Sprintf("(%s : (option err))", errParam))
+	ktypes = append(ktypes, "(option err)")
+	c.regLocal(kname, "("+strings.Join(append(ktypes, c.retType), " -> ")+")")
+	kbody := c.scoped(func() string {
+		for _, o := range state {
+			delete(c.views, o)
+		}
+		if errObj != nil {
+			delete(c.views, errObj)
+			delete(c.nonNilErr, errObj)
+		}
+		return k()
+	})
+	after := func(e string) string {
+		return "(" + strings.Join(append(append([]string{kname}, sargs...), e), " ") + ")"
+	}
+	return c.bind(c.call(call), "t", func(tv string) string {
+		pages, ferr := c.fresh("pages"), c.fresh("ferr")
+		c.regLocal(pages, "(list "+fi.cbPage+")")
+		c.regLocal(ferr, "(option err)")
+		// the parameters of the literal
+		var pnames []string
+		for i := 0; i < lsig.Params().Len(); i++ {
+			p := lsig.Params().At(i)
+			if c.g.kind(p.Type(), c.sub) == kDropped {
+				continue
+			}
+			if p.Name() == "" || p.Name() == "_" {
+				pnames = append(pnames, "_")
+			} else {
+				pnames = append(pnames, c.nameOf(p))
+			}
+		}
+		savedSig := c.sig
+		defer func() { c.sig = savedSig }()
+		loopT := c.loop(lit, cx{s: pages}, fi.cbPage, false, func(x, idx string, body func() string) string {
+			kret := c.fresh("kret")
+			c.regLocal(kret, "("+strings.Join(append(append([]string{}, ktypes...), c.retType), " -> ")+")")
+			cont := c.contK[len(c.contK)-1]()
+			ev := c.fresh("e")
+			bindP := ""
+			switch len(pnames) {
+			case 0:
+			case 1:
+				if pnames[0] != "_" {
+					bindP = "let " + pnames[0] + " := " + x + " in "
+				}
+			default:
+				bindP = "let '(" + strings.Join(pnames, ", ") + ") := " + x + " in "
+			}
+			c.cbRet = append(c.cbRet, func(e cx) string {
+				return c.bind(e, "e", func(v string) string {
+					return "(" + strings.Join(append(append([]string{kret}, sargs...), v), " ") + ")"
+				})
+			})
+			defer func() { c.cbRet = c.cbRet[:len(c.cbRet)-1] }()
+			inner := body()
+			return "let " + kret + " := (fun " + strings.Join(append(append([]string{}, kparams[:len(kparams)-1]...), "("+ev+" : (option err))"), " ") +
+				" => match " + ev + " with | Some _ => " + after(ev) + " | None => " + cont + " end) in " + bindP + inner
+		}, lit.Body, func() string { return after(ferr) })
+		return "let " + kname + " := (fun " + strings.Join(kparams, " ") + " => " + kbody + ") in let '(" + pages + ", " + ferr + ") := " + tv + " in " + loopT
+	})
 }
